@@ -6,6 +6,28 @@ from baize.typing import Environ, StartResponse, WSGIApp
 from .responses import PlainTextResponse, Response
 
 
+def _decode_path(raw: str) -> str:
+    """
+    PEP 3333: PATH_INFO holds the bytes of the request path decoded as latin-1.
+    Route patterns and mount prefixes are ordinary text, so the bytes are read as
+    UTF-8 (what is not UTF-8 is kept, as surrogate escapes).
+    """
+    try:
+        return raw.encode("latin-1").decode("utf-8", "surrogateescape")
+    except UnicodeError:  # not a PEP 3333 string
+        return raw
+
+
+def _encode_path(path: str) -> str:
+    """
+    The inverse of `_decode_path`, for what is written back into the environ.
+    """
+    try:
+        return path.encode("utf-8", "surrogateescape").decode("latin-1")
+    except UnicodeError:
+        return path
+
+
 class Router(BaseRouter[WSGIApp]):
     """
     A router to assign different paths to different WSGI applications.
@@ -23,7 +45,7 @@ class Router(BaseRouter[WSGIApp]):
     def __call__(
         self, environ: Environ, start_response: StartResponse
     ) -> Iterable[bytes]:
-        result = self.search(environ.get("PATH_INFO", ""))
+        result = self.search(_decode_path(environ.get("PATH_INFO", "")))
         if result is None:
             response: WSGIApp = Response(404)
         else:
@@ -51,14 +73,16 @@ class Subpaths(BaseSubpaths[WSGIApp]):
     def __call__(
         self, environ: Environ, start_response: StartResponse
     ) -> Iterable[bytes]:
-        path = environ.get("PATH_INFO", "")
+        path = _decode_path(environ.get("PATH_INFO", ""))
         result = self.search(path)
         if result is None:
             response: WSGIApp = Response(404)
         else:
             prefix, response = result
-            environ["SCRIPT_NAME"] = environ.get("SCRIPT_NAME", "") + prefix
-            environ["PATH_INFO"] = path[len(prefix) :]
+            environ["SCRIPT_NAME"] = environ.get("SCRIPT_NAME", "") + _encode_path(
+                prefix
+            )
+            environ["PATH_INFO"] = _encode_path(path[len(prefix) :])
         yield from response(environ, start_response)
 
 
